@@ -648,6 +648,19 @@ bool carquet_reader_can_zero_copy(
         return false;
     }
 
+    /* Must be PLAIN encoded: dictionary (or any other value encoding) pages are
+     * decoded into an owned buffer, never viewed in place */
+    if (col_meta->has_dictionary_page_offset) {
+        return false;
+    }
+    for (int32_t i = 0; i < col_meta->num_encodings; i++) {
+        carquet_encoding_t enc = col_meta->encodings[i];
+        if (enc != CARQUET_ENCODING_PLAIN && enc != CARQUET_ENCODING_RLE &&
+            enc != CARQUET_ENCODING_BIT_PACKED) {   /* RLE / BIT_PACKED: level encodings */
+            return false;
+        }
+    }
+
     /* Check if column has definition levels (nullable) */
     int16_t max_def = reader->schema->max_def_levels[column_index];
     if (max_def > 0) {
